@@ -18,6 +18,7 @@ PROPS = {
     'C05': {'units': ['chal'], 'kani': [], 'exclude': r'canonical_width'},
     'C06': {'units': ['bind'], 'kani': []},
     'C17': {'units': ['cache'], 'kani': []},
+    'C10': {'units': ['sched'], 'kani': []},
     'C12': {'units': ['bits', 'chal'], 'kani': [], 'only': {'chal': r'canonical_width'}},
     'C15': {'units': ['shape'], 'kani': []},
     'C13': {'units': ['sym'], 'kani': []},
@@ -173,7 +174,7 @@ META['C09'] = {
 NOT_APPLICABLE = {
     'C01': 'whole-verifier equivalence with the external native verifier (p3-uni-stark / p3-batch-stark): needs a relational spec of ~1.5 kLoC of dependency code across four generic traits; no per-function contract within reach expresses it. Its parts are decided under C05/C07/C08/C13/C14/C15/C20.',
 }
-for _p in ['C10', 'C14', 'C18']:
+for _p in ['C14', 'C18']:
     NOT_APPLICABLE.setdefault(_p, 'not reached yet: kernel designed in DESIGN.md §5 but its contracts are not built; not claimed')
 META['C13'] = {
     'technique': 'Verus contracts on the extracted real symbolic compiler (work-stack walk) and the alpha-folding loops',
@@ -209,6 +210,18 @@ META['C17'] = {
     'note': 'Layer-chaining half of C17 (a layer output is a valid input of the next layer, for every chain) is a whole-pipeline statement about prover and verifier: not expressible as a function contract here. '
             'All callees of the cache blocks are ASSUMED stubs that only say whose data they return; `coherent` is the meaning given to the tags. '
             'KNOWN FINDINGS (forged runs in findings/C17_cache_reuse_test.rs): C17-aggregation-fingerprint-collision, C17-aggregation-config-not-keyed, C17-next-layer-unguarded.',
+}
+
+META['C10'] = {
+    'technique': 'Verus contracts on the extracted real ALU lane scheduler (ghost flattening of the schedule into its Horner and ordinary operation lists)',
+    'text': 'Deductive proof, for every preprocessed ALU table, lane count and packing bound, about the schedule AluAir::compute_schedule returns: it is None exactly when no operation is a Horner step; '
+            'otherwise the Horner steps placed by the schedule (single or packed entries, in schedule order) are exactly the Horner operations in increasing order and the ordinary entries are exactly '
+            'the other operations in increasing order -- every operation is placed exactly once; rows are complete; every Horner entry sits in lane 0; a packed entry covers 2..=pack_k contiguous '
+            'operations with one b index; Horner entries in lane 0 of consecutive rows continue the same run of operations, a separator row precedes every run and row 0 starts with a separator. '
+            'The fill_row closure (hoisted to a function) completes the current row with the next pending ordinary operations, then separators. reduce_lanes_if_dummy returns 1 lane for dummy tables.',
+    'note': 'KERNEL: the scheduling mechanism named by the property. The statement itself (trace generation, proving and native verification succeed for every buildable circuit) spans the prover and the '
+            'proof system and is not a function contract. Assumed: horner_ops_share_b_idx (iterator chain) says all listed operations read one b index; iter().any / saturating_sub / min / is_multiple_of / '
+            'mem::take helper semantics; field elements opaque with decidable equality; preprocessed lane view generated from the real struct; that prep and prove call reduce_lanes_if_dummy with the same arguments is not checked.',
 }
 
 NOT_APPLICABLE['C04'] = ('soundness of the STARK / LogUp / FRI argument behind "an accepted proof attests a satisfying assignment" is a cryptographic statement no per-function contract here can state; '
